@@ -34,3 +34,6 @@ TECHNIQUE = ('Coq model of the run across processes (Run.run) with "every select
 LEVEL_TEXT = ('Which tests start in which process is compared with the model and with the selection recomputed in Coq, in sequential, '
               'repeated, resumed and parallel mode.')
 LEVEL_NOTE = 'Selection by patterns and levels is covered by C08/C09; discovery by C14.'
+
+import modes          # noqa: E402
+EXTRA_BATCHES = [modes.Batch('mixed', 24, 300)]
